@@ -106,6 +106,13 @@ def enumerate_cases(tier):
         for s in out[:3 if tier == "quick" else 12]:
             used = zoo_extra.spec_wires(s)
             yield {"expr": s, "order": list(reversed(used)) + ["zz"], "kind": "enum"}
+    # basis-state projectors with non-palindromic bit strings (bit order of the dense, sparse and eigenvalue representations), also
+    # inside a sum / scalar product
+    for bits, w in (([0, 1], [0, 1]), ([1, 0], ["b", "a"]), ([1, 0, 0], [2, 0, 1]), ([0, 1, 1], [0, 1, 2]), ([1, 1, 0, 1], [3, 1, 0, 2])):
+        pr = {"op": "Projector", "p": [bits], "w": w}
+        for e in (pr, {"op": "s_prod", "c": 0.5, "base": pr}, {"op": "sum", "operands": [pr, {"op": "PauliZ", "w": [w[0]]}]}):
+            used = zoo_extra.spec_wires(e)
+            yield {"expr": e, "order": list(reversed(used)) + ["zz"], "kind": "enum"}
     # change_op_basis with an explicit uncompute and Pauli operands: the composite has a Pauli representation whose factor
     # order matters (non-commuting compute / target / uncompute)
     P = lambda n, w: {"op": n, "w": [w]}  # noqa: E731
